@@ -13,6 +13,7 @@ for name in ("batotal", "packtotal", "txttotal", "recstotal"):
 
 class C05(PropertyCheck):
     pid = "C05"
+    source_tables = ["BIN_HEADER", "ARC_LABELS", "ARC_HEADER_PAD", "PACK_CONSTS", "ASet", "AssetBin"]   # tables / constants regenerated from /repo's source (gen/srctables.py)
     release_too = True
     rule = ("per parser family (bin archive both endiannesses; pack; text archive / arc / aset / asset binary as their modules land): "
             "random bytes (half of them behind a plausible header), every truncation of valid generated and game files, every header / "
